@@ -76,50 +76,82 @@ def _loop_var_names(loop: ast.AST) -> Set[str]:
 
 def keyed_cache(cfg: CFG, loop: ast.AST, name: str) -> Tuple[bool, str]:
     """ is `name`, inside `loop`, used only as a cache keyed by one expression:
-        stores `name[K] = v` only under a test `K not in name`, loads `name[K]`
-        only with the same K, and the loop variable appears in the guarded
-        (miss) branch only inside K?  Returns (ok, reason/K). """
+        stores `name[K] = v` only in the miss arm of a test on the same key (`K not in name`, or `v = name.get(K)`
+        followed by `v is None`), loads `name[K]` / `name.get(K)` only with the same K, and whatever changes from one
+        iteration to the next appears in the miss arm only inside K?  A local bound once in the loop body to a
+        call-free expression (`cutoff = rule.cutoff`) stands for that expression.  Returns (ok, reason/K). """
     loopvars = _loop_var_names(loop)
-    key_text: Optional[str] = None
     body_nodes = [cur for stmt in loop.body for cur in [stmt] + list(walk_local(stmt))]
-    stores, loads, tests = [], [], []
+    # locals that merely name a call-free expression
+    bound: Dict[str, List[ast.AST]] = {}
+    for cur in body_nodes:
+        if isinstance(cur, ast.Name) and isinstance(cur.ctx, ast.Store):
+            bound.setdefault(cur.id, []).append(cur)
+    alias: Dict[str, str] = {}
+    for stmt in loop.body:
+        if isinstance(stmt, ast.Assign) and len(stmt.targets) == 1 and isinstance(stmt.targets[0], ast.Name) \
+                and len(bound.get(stmt.targets[0].id, [])) == 1 and not any(isinstance(n, ast.Call) for n in ast.walk(stmt.value)) \
+                and isinstance(stmt.value, (ast.Attribute, ast.Name)):
+            alias[stmt.targets[0].id] = txt(stmt.value)
+
+    def norm(expr: ast.AST) -> str:
+        if isinstance(expr, ast.Name) and expr.id in alias:
+            return alias[expr.id]
+        return txt(expr)
+
+    stores, loads, tests = [], [], []   # tests: (test expr node, key text, miss arm is the body?)
+    got: Dict[str, str] = {}           # local bound from name.get(K) -> K
     for cur in body_nodes:
         if isinstance(cur, ast.Subscript) and isinstance(cur.value, ast.Name) and cur.value.id == name:
-            (stores if isinstance(cur.ctx, ast.Store) else loads).append(cur)
+            (stores if isinstance(cur.ctx, ast.Store) else loads).append((cur, norm(cur.slice)))
         elif isinstance(cur, ast.Compare) and len(cur.ops) == 1 and isinstance(cur.ops[0], (ast.NotIn, ast.In)) \
                 and isinstance(cur.comparators[0], ast.Name) and cur.comparators[0].id == name:
-            tests.append(cur)
+            tests.append((cur, norm(cur.left), isinstance(cur.ops[0], ast.NotIn)))
+        elif isinstance(cur, ast.Call) and isinstance(cur.func, ast.Attribute) and cur.func.attr == "get" \
+                and isinstance(cur.func.value, ast.Name) and cur.func.value.id == name and cur.args \
+                and (len(cur.args) == 1 or (isinstance(cur.args[1], ast.Constant) and cur.args[1].value is None)):
+            loads.append((cur, norm(cur.args[0])))
+            par = getattr(cur, "_parent", None)
+            if isinstance(par, ast.Assign) and len(par.targets) == 1 and isinstance(par.targets[0], ast.Name):
+                got[par.targets[0].id] = norm(cur.args[0])
         elif isinstance(cur, ast.Name) and cur.id == name:
             par = getattr(cur, "_parent", None)
             ok_parent = (isinstance(par, ast.Subscript) and par.value is cur) or \
-                        (isinstance(par, ast.Compare) and cur in par.comparators)
+                        (isinstance(par, ast.Compare) and cur in par.comparators) or \
+                        (isinstance(par, ast.Attribute) and par.attr == "get" and isinstance(getattr(par, "_parent", None), ast.Call)
+                         and getattr(par, "_parent").func is par)
             if not ok_parent:
                 return False, f"'{name}' is used other than as {name}[key] / key in {name}: {txt(par)[:80]}"
+    for cur in body_nodes:
+        if isinstance(cur, ast.Compare) and len(cur.ops) == 1 and isinstance(cur.ops[0], (ast.Is, ast.IsNot)) \
+                and isinstance(cur.left, ast.Name) and cur.left.id in got \
+                and isinstance(cur.comparators[0], ast.Constant) and cur.comparators[0].value is None:
+            tests.append((cur, got[cur.left.id], isinstance(cur.ops[0], ast.Is)))
     if not stores or not tests:
         return False, f"'{name}' has no guarded store of the form `if K not in {name}: {name}[K] = ...`"
-    keys = {txt(s.slice) for s in stores} | {txt(ld.slice) for ld in loads} | {txt(t.left) for t in tests}
+    keys = {k for _, k in stores} | {k for _, k in loads} | {k for _, k, _ in tests}
     if len(keys) != 1:
         return False, f"'{name}' is stored/loaded/tested under different key expressions: {sorted(keys)}"
     key_text = keys.pop()
     # each store must sit in the miss-arm of a test on the same key
-    for store in stores:
+    for store, _ in stores:
         guarded = None
+        miss_is_body = True
         child: ast.AST = store
         cur = getattr(store, "_parent", None)
         while cur is not None and cur is not loop:
-            if isinstance(cur, ast.If) and any(t is cur.test or any(t is n for n in ast.walk(cur.test)) for t in tests):
-                test = next(t for t in tests if any(t is n for n in ast.walk(cur.test)))
-                in_body = any(child is s for s in cur.body)
-                miss_arm = (isinstance(test.ops[0], ast.NotIn) and in_body) or \
-                           (isinstance(test.ops[0], ast.In) and not in_body)
-                if miss_arm and cur.test is test:
-                    guarded = cur
-                    break
+            if isinstance(cur, ast.If):
+                hit = [(t, body) for t, _, body in tests if cur.test is t]
+                if hit:
+                    in_body = any(child is s for s in cur.body)
+                    if in_body == hit[0][1]:
+                        guarded, miss_is_body = cur, hit[0][1]
+                        break
             child = cur
             cur = getattr(cur, "_parent", None)
         if guarded is None:
             return False, f"store {txt(store)} is not in the miss arm of `{key_text} not in {name}`"
-        arm = guarded.body if isinstance(guarded.test.ops[0], ast.NotIn) else guarded.orelse  # type: ignore[attr-defined]
+        arm = guarded.body if miss_is_body else guarded.orelse
         # anything that changes from one iteration to the next may appear in the miss arm only inside the key
         # expression: the loop variable and every name bound in the loop body outside the arm
         arm_nodes = {id(x) for stmt in arm for x in [stmt] + list(walk_local(stmt))}
@@ -131,6 +163,8 @@ def keyed_cache(cfg: CFG, loop: ast.AST, name: str) -> Tuple[bool, str]:
         for stmt in arm:
             for sub in [stmt] + list(walk_local(stmt)):
                 if isinstance(sub, ast.Name) and isinstance(sub.ctx, ast.Load) and sub.id in varying:
+                    if alias.get(sub.id) == key_text:
+                        continue
                     anc: Optional[ast.AST] = sub
                     inside_key = False
                     while anc is not None and anc is not stmt and not inside_key:
